@@ -355,3 +355,88 @@ CHECKS["C19"] = dict(
                  "ended", "virtual clock", "no schedule dimension: the library code involved is single-threaded here (C11 covers threads)"],
     deadline=dict(quick=60, thorough=120),
 )
+
+ALLRULES = "all"
+C15_OPS = "leave,feed,tmreg,evpost,fdseth,tkreg"
+CHECKS["C15"] = dict(
+    quick=[
+        # (a) every exclusion set / spelling selects the first method not excluded, and the loop works under it
+        R("h_loop", "bound=0 exclsets=1 seeds=11,6,12 nraw=1 nsig=1 nwk=1"),
+        # (b) interrupted waits (at once / after part of the sleep), interrupted epoll_ctl / raw-event I/O, optional syscalls starting to fail at the k-th call
+        R("h_loop", "bound=2 seeds=11,6,16,17,10,12 eintr_wait=1 eintr_io=1 sc_fault=1 nraw=1 nsig=1 ops=%s" % C15_OPS),
+        # (c) each optional facility absent from the first call
+        R("h_loop", "bound=1 seeds=11,6,16,10,12 nraw=1 nsig=1 absent=0"),
+        R("h_loop", "bound=1 seeds=11,6,16,10,12 nraw=1 nsig=1 absent=1"),
+        R("h_loop", "bound=1 seeds=11,6,16,10,12 nraw=1 nsig=1 absent=1 pwait2_eperm=1"),
+        R("h_loop", "bound=1 seeds=11,6,16,17,10,12 nraw=1 nsig=1 absent=2"),
+        R("h_loop", "bound=1 seeds=11,6,16,10,12 nraw=1 nsig=1 absent=3"),
+        R("h_loop", "bound=1 seeds=11,6,16,10,12 nraw=1 nsig=1 absent=4"),
+        R("h_loop", "bound=1 seeds=11,6,16,10,12 nraw=1 nsig=1 absent=4,5"),
+        R("h_event_mt", "bound=1 transports=0-3 hacts=0 eintr=1 p1=0,1,3 p2=0,1", sched=True),
+        R("h_raw", "bound=2 eintr=1 progs=0,2,3", sched=True),
+        R("h_pump", "mode=rw bound=3"),
+        R("h_pump", "mode=splice bound=1 no_pipe2=1"),
+    ],
+    thorough=[
+        R("h_loop", "bound=1 exclsets=1 seeds=11,6,12,16 nraw=1 nsig=1 nwk=1"),
+        R("h_loop", "bound=3 seeds=11,6,16,17 eintr_wait=1 eintr_io=1 sc_fault=1 nraw=1 nsig=1 ops=%s" % C15_OPS, share=0.4),
+        R("h_loop", "bound=2 seeds=11,6,16,10,12 nraw=1 nsig=1 absent=0,1,2,3,4,5 ops=%s" % C15_OPS),
+        R("h_loop", "bound=2 seeds=11,6,16,10,12 nraw=1 nsig=1 absent=2 ops=%s" % C15_OPS),
+        R("h_loop", "bound=2 seeds=11,6,16,10,12 nraw=1 nsig=1 absent=4,5 ops=%s" % C15_OPS),
+        R("h_event_mt", "bound=2 transports=0-4 hacts=1 eintr=1", sched=True),
+        R("h_raw", "bound=3 eintr=1", sched=True),
+        R("h_work", "bound=1 eintr=1 progs=1,4,5", sched=True),
+        R("h_pump", "mode=splice bound=2 no_pipe2=1"),
+    ],
+    rule="(a) all 15 exclusion sets x 3 spellings; (b) under each of the 4 methods, EINTR on any wait (immediately or after half of the "
+         "sleep), EINTR on epoll_ctl and raw-event reads/writes, and each optional syscall starting to fail with ENOSYS (epoll_pwait2 also "
+         "EPERM) at the k-th call, as deviations (bound 2 = any pair); (c) each optional syscall absent from the first call; hosted programs: "
+         "seeds and actions of C01-C07, smallest C08/C09 scenarios, pump in both modes",
+    explanation="every oracle of the hosted property stays switched on (no lost readiness, timers neither early nor overslept, no lost post, "
+                "exactly-once, loop termination, no library fatal); after a mid-run switch of method the ground-truth check at the next wait "
+                "is the direct test that registered interests survived",
+    assumptions=LOOP_ASSUME + ["the four Linux poll methods only (kqueue, /dev/poll, event ports do not build here)",
+                               "EINTR is injected only where the kernel can produce it (waits, epoll_ctl, blocking-capable pipe/eventfd I/O of raw events)"],
+    deadline=dict(quick=300, thorough=1500),
+)
+
+C18_RULES = "leak-,fd-mode,stale-callback,cookie," + ABN
+CHECKS["C18"] = dict(
+    quick=[
+        R("h_loop", "bound=1 cycles=2 seeds=%s,1,4,5,14,16 nfd=3 ntm=3 ntk=2 nev=2 nraw=1 nsig=1 nwk=1 rules=%s" % (ALL_SEEDS_C01, C18_RULES)),
+        R("h_loop", "bound=2 cycles=3 seeds=11,4,12 nfd=2 ntm=2 ntk=1 nev=1 nraw=1 nsig=1 ops=%s,fdreg,tmreg,evreg,rawreg,sigreg rules=%s" % (UNREG_OPS, C18_RULES)),
+        R("h_theap", "part=boundary depth=2", env=False),
+        R("h_theap", "part=closure n=9 keys=3", env=False),
+        R("h_pump", "mode=rw bound=3"),
+        R("h_pump", "mode=splice bound=1"),
+        R("h_inotify", "bound=0"),
+        R("h_popen", "bound=0"),
+        R("h_thread", "bound=2", sched=True),
+        R("h_work", "bound=1 methods=0,3 progs=1,4,5 puts=0,3", sched=True),
+        R("h_event_mt", "bound=1 transports=0-3 hacts=1 p1=0,1,3 p2=0,1", sched=True),
+        R("h_wait", "bound=1 steps=3", sched=True),
+    ],
+    thorough=[
+        R("h_loop", "bound=2 cycles=2 seeds=%s,1,4,5,14,16 nfd=2 ntm=2 ntk=2 nev=1 nraw=1 nsig=1 nwk=1 rules=%s" % (ALL_SEEDS_C01, C18_RULES), share=0.5),
+        R("h_theap", "part=boundary depth=3", env=False),
+        R("h_pump", "mode=rw bound=6"),
+        R("h_pump", "mode=splice bound=2"),
+        R("h_inotify", "bound=1"),
+        R("h_popen", "bound=0"),
+        R("h_thread", "bound=4", sched=True),
+        R("h_work", "bound=1", sched=True),
+        R("h_event_mt", "bound=2 transports=0-4", sched=True),
+        R("h_signal", "bound=2", sched=True),
+        R("h_wait", "bound=1 steps=6", sched=True),
+    ],
+    rule="the programs of the other properties (all harnesses, ASan+UBSan builds, every object individually malloc()ed, poisoned and freed at "
+         "the earliest moment the documentation allows), wrapped in 2-3 init/use/deinit cycles in the main thread, plus thread churn "
+         "(iv_thread children ending by return / pthread_exit / with and without iv_deinit, pool workers) and timer populations across the "
+         "128 / 16384 radix boundaries",
+    explanation="sanitizer reports (heap/stack overflow, use after free, UB) are violations; a resource ledger counts the library's own "
+                "allocations and descriptors (interposed malloc/free/close and creators) and must be balanced after every iv_deinit / thread "
+                "end and equal from cycle to cycle; LeakSanitizer runs at the end of the timer-store workers; registered descriptors must be "
+                "O_NONBLOCK and FD_CLOEXEC",
+    assumptions=LOOP_ASSUME + MT_ASSUME,
+    deadline=dict(quick=300, thorough=1500),
+)
